@@ -880,11 +880,21 @@ def s_opt_as_ref(vm, st, callee, args, dest, ret_bb, m):
 def s_opt_as_deref(vm, st, callee, args, dest, ret_bb, m):
     # Option<String>::as_deref(&self) -> Option<&str>   /  Option<&String>...
     v = deref(vm, st, args[0]) if isinstance(args[0], Ptr) else args[0]
+
+    def target(payload):
+        inner = deref(vm, st, payload)
+        if isinstance(inner, VecV) and isinstance(args[0], Ptr) and not isinstance(payload, Ptr):
+            # Option<Vec<T>>::as_deref -> Option<&[T]>: a slice reference into the option's payload
+            p0 = args[0]
+            while isinstance(vm.load(st, p0), Ptr):
+                p0 = vm.load(st, p0)
+            return Ptr(p0.cell, p0.path + (('v', 1), 0), ('slice', 0, len(inner.items)))
+        return inner
     if isinstance(v, SymEnum):
-        return done(vm, st, dest, ret_bb, SymEnum(v.discr, {0: (), 1: (deref(vm, st, v.cases[1][0]),)}))
+        return done(vm, st, dest, ret_bb, SymEnum(v.discr, {0: (), 1: (target(v.cases[1][0]),)}))
     if v.variant == 0:
         return done(vm, st, dest, ret_bb, none())
-    return done(vm, st, dest, ret_bb, some(deref(vm, st, v.fields[0])))
+    return done(vm, st, dest, ret_bb, some(target(v.fields[0])))
 
 
 def s_opt_copied(vm, st, callee, args, dest, ret_bb, m):
